@@ -76,8 +76,9 @@ void run_c18(sim::RunCtx& ctx) {
     if (ctx.focus < 0 || ctx.focus == K_SINK) {
         struct SF { int kind; int64_t arg; int vb; };   // kind 0 eio@op, 1 enospc@byte, 2 flush_fail, 3 close_fail
         std::vector<SF> plan;
-        static const int VBM[] = {1, 2, 2, 0}; static const size_t VBS[] = {0, 64, 4096, 0};
-        for (int vb = 0; vb < 4; vb++) {
+        static const int VBM[] = {1, 2, 2, 0, 3}; static const size_t VBS[] = {0, 64, 4096, 0, 512};
+        const int NVB = p.path_mode ? 4 : 5;      // a caller-supplied FILE* may be line-buffered; carquet's own fopen never is
+        for (int vb = 0; vb < NVB; vb++) {
             // number of sink ops depends on the buffering: measure it per mode with its own dry run below (upper bound here)
             plan.push_back({2, 0, vb}); if (p.path_mode) plan.push_back({3, 0, vb});
             std::vector<int64_t> budgets;
@@ -88,8 +89,8 @@ void run_c18(sim::RunCtx& ctx) {
             for (auto b : budgets) if (b >= 0 && b < (int64_t)B) plan.push_back({1, b, vb});
             for (int64_t k = 0; k < 400; k++) plan.push_back({0, k, vb});       // trimmed below once the op count of the mode is known
         }
-        std::vector<uint64_t> ops_in_mode(4, 0);
-        for (int vb = 0; vb < 4; vb++) {   // op count per buffering mode
+        std::vector<uint64_t> ops_in_mode(5, 0);
+        for (int vb = 0; vb < NVB; vb++) {   // op count per buffering mode
             sim::reset_fault_plans(); sim::sinkplan.vbuf_mode = VBM[vb]; sim::sinkplan.vbuf_size = VBS[vb];
             exec::WriteOutcome d2 = exec::run_writer(p, path);
             ops_in_mode[(size_t)vb] = sim::io.sink_writes;
@@ -116,6 +117,14 @@ void run_c18(sim::RunCtx& ctx) {
                 SIM_CHECK(!w.all_ok, "sink.failure_reported_ok", "%s writer, stdio buffering mode %d: sink fault (%s%lld) fired but every writer call including carquet_writer_close returned OK", p.path_mode ? "path" : "FILE*", f.vb, KN[f.kind], (long long)f.arg);
                 SIM_COUNT("probe.sink_fault_reported");
                 if (w.first_bad_call == w.calls - 1) SIM_COUNT("probe.sink_error_surfaced_at_close");
+            }
+            if (w.created && w.close_status == CARQUET_OK && w.first_bad_call >= 0 && w.first_bad_call < w.calls - 1 && w.file_exists) {
+                // an earlier call reported the failure, the caller carried on and close says OK: then what the sink holds must at least be a complete, valid file
+                ref::ReadOpts ro; ro.strict = true;
+                ref::Parsed P2 = ref::parse_file(w.image.data(), w.image.size(), ro);
+                SIM_CHECK(P2.ok, "sink.close_ok_on_invalid_file", "%s writer, stdio buffering mode %d: %s%lld made writer call #%d fail, the caller carried on and carquet_writer_close returned OK, but the sink holds an invalid file (%zu bytes; fault-free %zu): %s",
+                          p.path_mode ? "path" : "FILE*", f.vb, KN[f.kind], (long long)f.arg, w.first_bad_call, w.image.size(), image.size(), P2.error.c_str());
+                SIM_COUNT("probe.close_ok_after_reported_failure_file_valid");
             }
             if (w.created && w.close_status == CARQUET_OK && w.first_bad_call < 0)
                 SIM_CHECK(w.image == image, "sink.ok_but_bytes_missing", "%s writer: close returned OK but the sink holds %zu bytes that differ from the fault-free image (%zu bytes)", p.path_mode ? "path" : "FILE*", w.image.size(), image.size());
